@@ -391,6 +391,7 @@ class World:
         self.n_eps = 0
         self.last_rx = {}      # timed mode: last delivery instant per receiver (FIFO)
         self.depth = 0
+        self.app_now = []      # interleave mode: application actions to run at the next scheduling point
         self.eps_only = None   # names of the nodes whose scheduling latency is symbolic (None: all)
         self.branching = True  # False: canonical schedule (job pass first), no interleaving choices
 
@@ -479,6 +480,12 @@ class World:
 
     def micro_step(self):
         ex = self.ex
+        if self.app_now:
+            # an application action requested for "right now" (before anything else that is enabled)
+            fn = self.app_now.pop(0)
+            self.time_calls = 0
+            fn()
+            return True
         order = self.nodes
         if not self.branching and len(order) > 1:
             # canonical schedule: serve the nodes round-robin (a fixed priority order would starve the last one)
